@@ -215,6 +215,13 @@ def handle (j : Json) : IO Unit := do
   match jstr (jget j "kind") with
   | "scenario" => handleScenario case j
   | "leak" => handleLeak case j
+  | "soak" =>
+    -- "a completed stream is delivered whole", on an engine instance that has seen clients go away mid-flow
+    let impl := jget j "impl"
+    if jstr (jget impl "start_err") != "" then emit case false true "start-error" "" (jstr (jget impl "start_err")) else
+    let bad := jnat (jget impl "complete_not_whole")
+    emit case true (bad == 0) s!"soak.{jstr (jget j "engine")}" (if bad == 0 then "" else s!"{jstr (jget j "engine")}-completed-stream-not-delivered-whole-after-aborts")
+      (if bad == 0 then "" else s!"{jstr (jget j "engine")}: after {jnat (jget impl "aborted")} clients had gone away mid-flow, {bad} of {bad + jnat (jget impl "complete_whole")} completed streams were not delivered whole; first: {jstr (jget impl "first")}")
   | k => emit case false true "unknown-kind" "" k
 
 def main : IO Unit := do forLines (← IO.getStdin) handle
